@@ -152,7 +152,14 @@ func (P *Prog) offsetExact(v ssa.Value, at *ssa.BasicBlock, depth int) (bool, st
 		if strings.HasSuffix(n, ".Uint32") && strings.Contains(n, "encoding/binary") {
 			a := x.Call.Args[len(x.Call.Args)-1]
 			if sl, ok := a.(*ssa.Slice); ok && sl.Low == nil && sl.High == nil && isResumeOffsetSource(sl.X) {
-				return true, ""
+				// the entry the offset is taken from is the first one, as in the reply the client was given (the
+				// handler that announces size − offset and the handler that skips must pick the same entry)
+				if ia, isIA := sl.X.(*ssa.FieldAddr).X.(*ssa.IndexAddr); isIA {
+					if k, isK := constInt(ia.Index); isK && k == 0 {
+						return true, ""
+					}
+				}
+				return false, "the offset is not taken from ForkInfoList[0], the entry the announced sizes are computed from"
 			}
 			return false, "the value decoded is not ForkInfoList.DataSize"
 		}
@@ -1411,4 +1418,102 @@ func deferWritesResult(fn *ssa.Function, cell *ssa.Alloc) bool {
 		}
 	}
 	return false
+}
+
+// ruleAnnouncedForksSent (C10): the flattened file object sent for an item announces its fork count; when it says
+// three forks and the client did not ask to resume, the resource fork header is written on every path that
+// finishes the item — no further condition may drop the announced fork.
+func (R *Run) ruleAnnouncedForksSent() {
+	P := R.P
+	R.rule("announced-forks-sent", "in the folder download, on the paths where the item's header announced three forks (ForkCount[1] == 3) and the client's action is not 'resume', the resource-fork header is written before the item is finished: what was announced is what is sent")
+	root := R.mustFn("hotline.DownloadFolderHandler")
+	if root == nil {
+		return
+	}
+	n := 0
+	for _, fn := range withAnons(root) {
+		var hdr ssa.Instruction
+		for _, ci := range callsIn(fn) {
+			c := ci.Common()
+			if calleeName(c) == "encoding/binary.Write" && len(c.Args) == 3 {
+				if cv := callValue(c.Args[2]); cv != nil && calleeName(&cv.Call) == "(*hotline.fileWrapper).rsrcForkHeader" {
+					hdr = ci.(ssa.Instruction)
+				}
+				if u, ok := stripConv(c.Args[2]).(*ssa.UnOp); ok && hdr == nil {
+					if a, ok := u.X.(*ssa.Alloc); ok {
+						if val, single := singleStore(a); single {
+							if cv := callValue(val); cv != nil && calleeName(&cv.Call) == "(*hotline.fileWrapper).rsrcForkHeader" {
+								hdr = ci.(ssa.Instruction)
+							}
+						}
+					}
+				}
+			}
+		}
+		if hdr == nil {
+			continue
+		}
+		n++
+		R.analysed(fname(fn))
+		// cut the edges that contradict "three forks announced" or "not a resume"
+		cut := map[Edge]bool{}
+		var starts []*ssa.BasicBlock
+		factEdges(fn, func(e Edge, f Fact) {
+			if f.Kind != "eq" {
+				return
+			}
+			k, ok := constInt(f.C)
+			if !ok {
+				return
+			}
+			s := P.sym(f.V)
+			switch {
+			case strings.Contains(s, "hotline.FlatFileHeader.ForkCount") && k == 3:
+				if !f.Holds {
+					cut[e] = true
+				} else {
+					starts = append(starts, e.From)
+				}
+			case strings.Contains(s, "nextAction") && k == 2:
+				if f.Holds {
+					cut[e] = true
+				}
+			}
+		})
+		if len(starts) == 0 {
+			R.und("announced-forks-sent", fname(fn), P.pos(fn.Pos()), "no test of the announced fork count (ForkCount[1] == 3) found in front of the resource-fork header")
+			continue
+		}
+		ok := true
+		var witness ssa.Instruction
+		var items []psItem
+		for _, b := range starts {
+			items = append(items, psItem{b, nilState{}})
+		}
+		explore(items, cut, false, func(b *ssa.BasicBlock, _ nilState) bool {
+			for _, ins := range b.Instrs {
+				if ins == hdr {
+					return false
+				}
+				if r, isRet := ins.(*ssa.Return); isRet {
+					// an error return (something failed before) does not finish the item
+					if len(r.Results) > 0 && !isNilConst(r.Results[len(r.Results)-1]) {
+						return false
+					}
+					ok = false
+					witness = r
+					return false
+				}
+			}
+			return true
+		})
+		pos := P.ipos(hdr)
+		if witness != nil {
+			pos = P.ipos(witness)
+		}
+		R.check(ok, "announced-forks-sent", fname(fn)+": resource-fork header", pos, "written whenever three forks were announced and the item is not resumed", "the item's header announces three forks, yet a path finishes the item without the resource-fork header (a further condition drops the announced fork): the client waits for it and the rest of the tree is never delivered")
+	}
+	if n == 0 {
+		R.bad("announced-forks-sent", "hotline.DownloadFolderHandler", P.pos(root.Pos()), "no resource-fork header write found")
+	}
 }
